@@ -79,6 +79,21 @@ def crafted(case):
             exts = [(1, b"name.txt"), (0x53, body), (0x52, b"grp"), (0x50, perm_f), (0x51, struct.pack("<HH", 100, 1000))]
         elif which == "group":
             exts = [(1, b"name.txt"), (0x52, body), (0x50, perm_f), (0x51, struct.pack("<HH", 100, 1000))]
+    elif f == "percent":
+        # conversion specifications in archive-derived strings are text: they come out as they are
+        spec = case["spec"].encode()
+        which = case["which"]
+        if which == "name":
+            exts = [(2, b"dir\xff"), (1, b"n" + spec + b".txt")]
+        elif which == "path":
+            exts = [(2, b"p" + spec + b"\xff"), (1, b"name.txt")]
+        elif which == "target":
+            exts = [(1, b"lnk|t" + spec), (0x50, perm_l)]
+            method, size, data, crc = b"-lhd-", 0, b"", 0
+        elif which == "user":
+            exts = [(1, b"name.txt"), (0x53, b"u" + spec), (0x52, b"g" + spec), (0x50, perm_f), (0x51, struct.pack("<HH", 100, 1000))]
+        elif which == "inname":
+            return lzhfmt.build_header(1, b"-lh0-", packed=len(DATA), size=len(DATA), crc=CRC, name=b"d" + spec + b"\\n" + spec, time=0x3C21A000) + DATA
     elif f == "hdrbyte":
         # any single byte of a plain member's header (no Unix metadata, so that the OS column shows) replaced by the hostile value,
         # additive checksum of levels 0/1 re-made: whatever field the byte belongs to, its rendering must be printable
@@ -117,7 +132,7 @@ def build(case):
 
 def describe(space, case):
     return "C18 %s field=%s byte=0x%02x pos=%s kind=%s level=%s member=%s%s" % (space, case["field"], case["byte"], case.get("pos", case.get("pos5")), case["kind"], case["level"], case.get("member", 1),
-                                                                              " which=%s len=%s at=%s" % (case["which"], case["len"], case["at"]) if case["field"] == "long" else " at=%s" % case["at"] if case["field"] == "hdrbyte" else " answers=%r" % case["answers"] if case.get("answers") is not None else "")
+                                                                              " which=%s len=%s at=%s" % (case["which"], case["len"], case["at"]) if case["field"] == "long" else " at=%s" % case["at"] if case["field"] == "hdrbyte" else " answers=%r" % case["answers"] if case.get("answers") is not None else " which=%s spec=%r" % (case["which"], case["spec"]) if case["field"] == "percent" else "")
 
 
 def run_case(runner, space, case):
@@ -150,6 +165,10 @@ def run_case(runner, space, case):
                 i = next(k for k, c in enumerate(stream) if c not in OK)
                 viol.append(("c18-nonprintable-%s-%s" % (name, "list" if mode[0] in "lv" else "extract" if mode[0] in "x" else "test" if mode[0] == "t" else "print"),
                              "mode %s: %s carries byte 0x%02x at offset %d: %r" % (mode, name, stream[i], i, stream[max(0, i - 30):i + 10])))
+        if case["field"] == "percent" and mode in ("l", "lv", "v", "vv", "t", "x", "xq1") and not (case["which"] == "user" and mode not in ("v", "vv", "lv", "l")) and not (case["which"] == "target" and mode in ("t",)):
+            # deterministic half of the oracle: the specification itself must be in the output (nothing was substituted for it)
+            if case["which"] != "user" and case["spec"].encode() not in r.stdout + r.stderr:
+                viol.append(("c18-conversion-interpreted", "mode %s: %r is not in the output, something was substituted for it: %r" % (mode, case["spec"], (r.stdout + r.stderr)[-160:])))
         if not r.status.startswith("exit:") or r.status in ("exit:86", "exit:87"):
             viol.append(("c18-abnormal-exit", "mode %s: %s %r" % (mode, r.status, r.stderr[:300])))
     return {"transitions": n, "outcome": outcome, "nontrivial": True, "violations": viol}
